@@ -29,6 +29,32 @@ class RefDoc:
         rng.shuffle(kinds)
         self.defs = [(kind, self.new_id(kind)) for kind in kinds]
         self.body_ids = []
+        self.extra_defs = []
+
+    def hidden_user(self):
+        """an element that is not painted and is the only user of a fresh gradient / pattern (direct, or inherited from a group)"""
+        rng = self.rng
+        i = self.new_id('hid')
+        k = rng.below(3)
+        if k == 0:
+            self.extra_defs.append(_grad(i, 'red'))
+        elif k == 1:
+            self.extra_defs.append('<radialGradient id="%s"><stop offset="0" stop-color="white"/><stop offset="1" stop-color="blue"/></radialGradient>' % i)
+        else:
+            self.extra_defs.append('<pattern id="%s" patternUnits="userSpaceOnUse" width="6" height="6"><rect width="3" height="3"%s/></pattern>'
+                                   % (i, self.ref_attrs(-1, allow_filter=False).replace(' visibility="visible"', '')))
+        v = rng.choice(['hidden', 'collapse'])
+        paint = rng.choice(['fill="url(#%s)"', 'stroke="url(#%s)" stroke-width="3"', 'fill="url(#%s)" stroke="url(#%s)"']).replace('%s', i)
+        x, y = rng.below(50), rng.below(50)
+        shape = '<rect x="%d" y="%d" width="%d" height="%d"%%s/>' % (x, y, 10 + rng.below(30), 10 + rng.below(30))
+        r = rng.below(4)
+        if r == 0:
+            return shape % (' visibility="%s" %s' % (v, paint))
+        if r == 1:
+            return '<g visibility="%s">%s</g>' % (v, shape % (' ' + paint))
+        if r == 2:
+            return '<g %s>%s<circle cx="20" cy="20" r="5" fill="black" stroke="none"/></g>' % (paint, shape % (' visibility="%s"' % v))
+        return '<g visibility="%s" %s><g>%s</g></g>' % (v, paint, shape % '')
 
     def new_id(self, kind):
         self.n += 1
@@ -76,6 +102,8 @@ class RefDoc:
             a += ' style="%s"' % rng.choice(['mix-blend-mode:screen', 'isolation:isolate', 'mix-blend-mode:multiply;isolation:isolate'])
         if rng.below(6) == 0:
             a += ' transform="translate(%d %d)"' % (rng.below(20), rng.below(20))
+        if rng.below(9) == 0:
+            a += ' visibility="%s"' % rng.choice(['hidden', 'collapse', 'hidden', 'visible'])
         return a
 
     def shape(self, idx, with_id=False, in_clip=False):
@@ -225,7 +253,9 @@ class RefDoc:
         body = []
         for _ in range(2 + rng.below(4)):
             r = rng.below(10)
-            if r < 6:
+            if r < 6 and rng.below(5) == 0:
+                body.append(self.hidden_user())
+            elif r < 6:
                 i = None
                 s = self.shape(-1, with_id=rng.below(3) == 0)
                 body.append(s)
@@ -251,7 +281,7 @@ class RefDoc:
                     at = {'clip': 'clip-path', 'mask': 'mask', 'pat': 'fill', 'lg': 'fill', 'filt': 'filter'}[k]
                     body.append('<rect x="0" y="0" width="40" height="40" %s="url(#%s)"/><rect x="50" y="50" width="30" height="45" %s="url(#%s)"/>'
                                 % (at, i, at, i))
-        defs = ''.join(self.definition(k) for k in range(len(self.defs)))
+        defs = ''.join(self.definition(k) for k in range(len(self.defs))) + ''.join(self.extra_defs)
         return '<svg %s width="100" height="100" viewBox="0 0 100 100"><defs>%s</defs>%s</svg>' % (NS, defs, ''.join(body))
 
 
@@ -269,7 +299,7 @@ def _grad(i, color):
 
 
 def crafted_docs():
-    out = units_docs() + marker_docs() + [specular_doc(v) for v in SPECULAR_VALUES] + feimage_image_docs() + subregion_docs()
+    out = units_docs() + marker_docs() + [specular_doc(v) for v in SPECULAR_VALUES] + feimage_image_docs() + subregion_docs() + hidden_docs()
     # a path whose fill AND stroke are different patterns; what the stroke pattern's content uses is used nowhere else
     for res, attr, definition in [
         ('only-g', 'fill="url(#only-g)"', _grad('only-g', 'red')),
@@ -297,7 +327,9 @@ def crafted_docs():
         ('fill="url(#g1)"', '<linearGradient id="g1"><stop offset="0" stop-color="white"/><stop offset="1" stop-color="red"/></linearGradient>'),
         ('fill="url(#p1)"', '<pattern id="p1" width="0.25" height="0.25"><rect width="6" height="6" fill="blue"/></pattern>'),
     ]:
-        for users in ((line, rect), (line, rect, rect.replace('y="50"', 'y="5" x="40"')), (rect, line, rect.replace('width="60"', 'width="30"'))):
+        # (until round 4 the third user had two `x` attributes and the fill users two `fill` attributes: not XML, silently rejected)
+        urect = rect.replace(' fill="green"', '') if attr.startswith('fill=') else rect
+        for users in ((line, urect), (line, urect, urect.replace('x="10" y="50"', 'x="40" y="5"')), (urect, line, urect.replace('width="60"', 'width="30"'))):
             out.append('<svg %s width="100" height="100"><defs>%s</defs>%s</svg>' % (NS, definition, ''.join(u % attr for u in users)))
     return out
 
@@ -425,4 +457,72 @@ def subregion_docs():
                        '<feFlood flood-color="red" flood-opacity="0.6" %s/><feOffset in="SourceGraphic" dx="2" %s result="o"/>'
                        '<feMerge><feMergeNode in="result1"/><feMergeNode in="o"/></feMerge></filter>'
                        '<rect width="100" height="100" fill="blue" filter="url(#fs)"/></svg>' % (NS, pu, attrs, attrs))
+    return out
+
+
+def _rgrad(i, color):
+    return ('<radialGradient id="%s" gradientUnits="userSpaceOnUse" cx="20" cy="20" r="15"><stop offset="0" stop-color="white"/>'
+            '<stop offset="1" stop-color="%s"/></radialGradient>' % (i, color))
+
+
+def _pat(i, inner):
+    return '<pattern id="%s" patternUnits="userSpaceOnUse" width="8" height="8">%s</pattern>' % (i, inner)
+
+
+def hidden_docs():
+    """paint servers used ONLY by elements that are not painted (visibility=hidden / collapse): the paths stay in the tree with
+    their fill and stroke and the writer emits their url(#id), so the servers must be in the tree's collections.
+    Direct, inherited from a group (the paint and / or the visibility), only inside a pattern / mask / clip-path / marker /
+    symbol content, a hidden user of a pattern whose content has the only use, hidden text and hidden spans."""
+    lg, rg = _grad('hlg', 'red'), _rgrad('hrg', 'blue')
+    pt = _pat('hpt', '<rect width="4" height="4" fill="green"/>')
+    vis = '<rect x="60" y="60" width="30" height="30" fill="orange"/>'
+    out = []
+
+    def doc(defs, body):
+        out.append('<svg %s width="100" height="100"><defs>%s</defs>%s%s</svg>' % (NS, defs, body, vis))
+
+    for v in ('hidden', 'collapse'):
+        # direct: fill and stroke of one hidden shape; each kind alone
+        doc(lg + rg + pt, '<rect id="h1" x="5" y="5" width="40" height="40" visibility="%s" fill="url(#hlg)" stroke="url(#hrg)" stroke-width="4"/>'
+                          '<circle id="h2" cx="30" cy="70" r="12" visibility="%s" fill="url(#hpt)"/>' % (v, v))
+        doc(lg, '<rect x="5" y="5" width="40" height="40" visibility="%s" fill="url(#hlg)"/>' % v)
+        doc(rg, '<path d="M 5 5 L 50 5 L 50 50 Z" visibility="%s" fill="none" stroke="url(#hrg)" stroke-width="5"/>' % v)
+        doc(pt, '<ellipse cx="30" cy="30" rx="20" ry="10" visibility="%s" fill="url(#hpt)"/>' % v)
+        # inherited: visibility from the group, paint on the children / paint from the group, visibility on the child / both on the group
+        doc(lg + rg, '<g visibility="%s"><rect x="5" y="5" width="40" height="40" fill="url(#hlg)"/><circle cx="30" cy="70" r="12" stroke="url(#hrg)"/></g>' % v)
+        doc(lg + pt, '<g fill="url(#hlg)" stroke="url(#hpt)" stroke-width="3"><rect x="5" y="5" width="40" height="40" visibility="%s"/></g>' % v)
+        doc(rg, '<g id="hg" fill="url(#hrg)" visibility="%s" opacity="0.5"><g><rect x="5" y="5" width="40" height="40"/><circle cx="30" cy="70" r="12"/></g></g>' % v)
+        # a visible child of a hidden group re-enables painting: one server used by the visible child, one only by the hidden sibling
+        doc(lg + rg, '<g visibility="%s"><rect x="5" y="5" width="40" height="40" fill="url(#hlg)"/>'
+                     '<rect x="5" y="50" width="40" height="40" visibility="visible" fill="url(#hrg)"/></g>' % v)
+        # only inside a pattern that a hidden element uses
+        doc(lg + _pat('hp2', '<rect width="6" height="6" fill="url(#hlg)"/>'),
+            '<rect x="5" y="5" width="40" height="40" visibility="%s" fill="url(#hp2)"/>' % v)
+        # hidden content of a pattern / mask / clip path / marker / symbol that a VISIBLE element uses
+        doc(rg + _pat('hp3', '<rect width="6" height="6" fill="black"/><rect width="3" height="3" visibility="%s" fill="url(#hrg)"/>' % v),
+            '<rect x="5" y="5" width="40" height="40" fill="url(#hp3)"/>')
+        doc(lg + '<mask id="hm" maskUnits="userSpaceOnUse" x="0" y="0" width="100" height="100"><rect width="50" height="50" fill="white"/>'
+                 '<rect width="30" height="30" visibility="%s" fill="url(#hlg)"/></mask>' % v,
+            '<rect x="5" y="5" width="40" height="40" fill="green" mask="url(#hm)"/>')
+        doc(pt + '<marker id="hmk" markerWidth="6" markerHeight="6" refX="3" refY="3"><rect width="6" height="6" visibility="%s" fill="url(#hpt)"/>'
+                 '<circle cx="3" cy="3" r="2"/></marker>' % v,
+            '<path d="M 10 10 L 40 10 L 40 40" fill="none" stroke="black" marker-mid="url(#hmk)"/>')
+        doc(lg + '<symbol id="hs"><rect width="20" height="20" visibility="%s" stroke="url(#hlg)"/><circle cx="10" cy="10" r="5"/></symbol>' % v,
+            '<use xlink:href="#hs" x="10" y="10"/>')
+        doc(rg + '<filter id="hf" filterUnits="userSpaceOnUse" x="0" y="0" width="100" height="100"><feImage xlink:href="#hfi"/></filter>'
+                 '<rect id="hfi" width="20" height="20" visibility="%s" fill="url(#hrg)"/>' % v,
+            '<rect x="5" y="5" width="40" height="40" fill="green" filter="url(#hf)"/>')
+        # a hidden path carrying markers is not split into marker instances; its own paints stay
+        doc(lg + '<marker id="hmk2" markerWidth="6" markerHeight="6"><circle cx="3" cy="3" r="2" fill="url(#hlg)"/></marker>' + rg,
+            '<path d="M 10 10 L 40 10 L 40 40" visibility="%s" fill="none" stroke="url(#hrg)" marker-start="url(#hmk2)"/>' % v)
+        # text: hidden as a whole, and with one hidden span (flattened text keeps the span's visibility on its paths)
+        doc(lg, '<text x="5" y="40" font-size="30" visibility="%s" fill="url(#hlg)">Ab</text>' % v)
+        doc(lg + rg, '<text x="5" y="40" font-size="30" fill="black">A<tspan visibility="%s" fill="url(#hlg)" stroke="url(#hrg)">b</tspan>c</text>' % v)
+        doc(pt, '<text x="5" y="40" font-size="30" fill="black" visibility="%s">A<tspan visibility="visible">b</tspan>'
+                '<tspan fill="url(#hpt)" text-decoration="underline">c</tspan></text>' % v)
+    # an objectBoundingBox gradient shared by a hidden and a visible element with different boxes, and by two hidden ones
+    obb = '<linearGradient id="hob"><stop offset="0" stop-color="white"/><stop offset="1" stop-color="red"/></linearGradient>'
+    doc(obb, '<rect x="5" y="5" width="40" height="20" visibility="hidden" fill="url(#hob)"/><rect x="5" y="50" width="20" height="40" fill="url(#hob)"/>')
+    doc(obb, '<rect x="5" y="5" width="40" height="20" visibility="hidden" fill="url(#hob)"/><rect x="5" y="50" width="20" height="40" visibility="collapse" stroke="url(#hob)"/>')
     return out
